@@ -593,6 +593,13 @@ fn all_ops(w: &World, cfg: &Cfg) -> Vec<Op> {
 
 // ---------------------------------------------------------------- applying one operation
 
+/// The monitor's own notion of id equality: the three fields. The type's `==` and `Hash` belong to the code under test
+/// (the bookkeeping set of a DOM is built on them), so the oracle must not be built on them too.
+type UK = (u32, u32, i64);
+fn uk(u: &UniqueId) -> UK {
+    (u.index(), u.time(), u.random())
+}
+
 fn real_uid(dom: &WeakDom, r: Ref) -> Option<UniqueId> {
     let from_props = match dom.get_by_ref(r)?.properties.get(&rbx_dom_weak::ustr("UniqueId")) {
         Some(Variant::UniqueId(u)) => Some(*u),
@@ -606,8 +613,8 @@ fn real_uid(dom: &WeakDom, r: Ref) -> Option<UniqueId> {
 /// The UniqueId rule of C12 for a group of instances that just entered DOM `d`.
 /// `entering`: (model id, id value before the operation). `s_before`: ids held by the DOM before.
 fn check_uid_rule(w: &mut World, d: usize, entering: &[(usize, UniqueId)], s_before: &[UniqueId], out: &mut Vec<V>, opn: &str) {
-    let s: HashSet<UniqueId> = s_before.iter().copied().collect();
-    let olds: HashSet<UniqueId> = entering.iter().map(|(_, u)| *u).collect();
+    let s: HashSet<UK> = s_before.iter().map(uk).collect();
+    let olds: HashSet<UK> = entering.iter().map(|(_, u)| uk(u)).collect();
     let mut news: Vec<(usize, UniqueId, UniqueId)> = vec![];
     for (id, old) in entering {
         let rr = w.r[id];
@@ -617,28 +624,29 @@ fn check_uid_rule(w: &mut World, d: usize, entering: &[(usize, UniqueId)], s_bef
         }
     }
     for val in &olds {
-        let holders: Vec<&(usize, UniqueId, UniqueId)> = news.iter().filter(|(_, o, _)| o == val).collect();
-        let kept = holders.iter().filter(|(_, o, n)| o == n).count();
+        let shown = UniqueId::new(val.0, val.1, val.2);
+        let holders: Vec<&(usize, UniqueId, UniqueId)> = news.iter().filter(|(_, o, _)| uk(o) == *val).collect();
+        let kept = holders.iter().filter(|(_, o, n)| uk(o) == uk(n)).count();
         if s.contains(val) {
             if kept != 0 {
-                out.push(v("C12", &format!("collision-kept:{}", opn), format!("{}: id {} was already held by the destination DOM but an entering instance kept it", opn, val)));
+                out.push(v("C12", &format!("collision-kept:{}", opn), format!("{}: id {} was already held by the destination DOM but an entering instance kept it", opn, shown)));
             }
         } else if kept != 1 {
             if kept == 0 {
                 // also a C10 matter: the operation changed a property although nothing collided
-                out.push(v("C10", &format!("property-changed-without-collision:{}", opn), format!("{}: an entering instance's UniqueId {} was replaced although the destination did not hold it", opn, val)));
+                out.push(v("C10", &format!("property-changed-without-collision:{}", opn), format!("{}: an entering instance's UniqueId {} was replaced although the destination did not hold it", opn, shown)));
             }
             out.push(v(
                 "C12",
                 &format!("{}:{}", if kept == 0 { "regenerated-without-collision" } else { "duplicate-kept" }, opn),
-                format!("{}: id {} not held by the destination: {} of {} entering holders kept it (exactly one must)", opn, val, kept, holders.len()),
+                format!("{}: id {} not held by the destination: {} of {} entering holders kept it (exactly one must)", opn, shown, kept, holders.len()),
             ));
         }
     }
-    let mut fresh_seen: HashSet<UniqueId> = HashSet::new();
+    let mut fresh_seen: HashSet<UK> = HashSet::new();
     for (_, old, new) in &news {
-        if old != new {
-            if s.contains(new) || olds.contains(new) || !fresh_seen.insert(*new) {
+        if uk(old) != uk(new) {
+            if s.contains(&uk(new)) || olds.contains(&uk(new)) || !fresh_seen.insert(uk(new)) {
                 out.push(v("C12", &format!("regenerated-not-fresh:{}", opn), format!("{}: regenerated id {} is not fresh", opn, new)));
             }
         }
@@ -1114,7 +1122,7 @@ pub fn check_world(w: &World, out: &mut Vec<V>, opn: &str, sample: usize) {
                         MRef::Dangling(dr) => dr == rv,
                     },
                     (MV::Uid(u), Some(Variant::UniqueId(ru))) => {
-                        if u != ru {
+                        if uk(u) != uk(ru) {
                             out.push(v("C12", &format!("uid-changed:{}", opn), format!("after {}: UniqueId of an instance not entering a DOM changed from {} to {}", opn, u, ru)));
                         }
                         true
@@ -1141,11 +1149,16 @@ pub fn check_world(w: &World, out: &mut Vec<V>, opn: &str, sample: usize) {
                 }
             }
         }
-        let hs: HashSet<UniqueId> = held.iter().copied().collect();
+        let hs: HashSet<UK> = held.iter().map(uk).collect();
         if hs.len() != held.len() {
             out.push(v("C12", &format!("duplicate-in-dom:{}", opn), format!("after {}: two instances of DOM {} hold the same UniqueId", opn, d)));
         }
-        let book: HashSet<UniqueId> = dom.verif_unique_ids().into_iter().collect();
+        // (the hook hands the set out as a list; two members that are equal field by field would be a finding of their own)
+        let book_list: Vec<UK> = dom.verif_unique_ids().iter().map(uk).collect();
+        let book: HashSet<UK> = book_list.iter().copied().collect();
+        if book.len() != book_list.len() {
+            out.push(v("C12", &format!("bookkeeping-duplicate:{}", opn), format!("after {}: the bookkeeping set of DOM {} holds the same id twice", opn, d)));
+        }
         if book != hs {
             out.push(v(
                 "C12",
